@@ -24,6 +24,14 @@ CLAIMED = {
         "every run. Does not decide XPath's own matching semantics nor which attribute each setter uses beyond make_xpath_query's table.",
         "Trusted: lxml XPath evaluation; XPath 1.0 has no escape inside literals; callees resolved by name for derived sinks (only unambiguous names).",
         "DESIGN.md §4 C14"),
+    "C18": (
+        "ast table extraction and comparison: decoder dispatch exhaustiveness, encoder/decoder literal, designator and unit tables, exhaustive validation of the literal colour table",
+        "Partial, structural. Decides that decoders reject unknown characters (dispatch ends in a raising arm), that the literals/designators/"
+        "sign/unit divisors written by Boolean, Duration, DateTime and Date encoders are the ones their decoders read, and validates all 147 "
+        "CSS colour entries plus the format fields and slices of rgb2hex/hex2rgb (the 'all CSS colour names' quantifier is enumerated completely). "
+        "Does not decide inverse-ness over the date/duration value domains, time zones, microseconds or Unit.",
+        "Trusted: stdlib isoformat/fromisoformat; W3C values of the 17 basic colours; ISO 8601 unit sizes.",
+        "DESIGN.md §4 C18"),
 }
 
 NOT_APPLICABLE = {
